@@ -235,9 +235,11 @@ impl AsyncWalManager {
 
         // Replace active log
         let mut guard = self.active_log.lock().await;
-        if let Some(old_log) = guard.take() {
-            // Ensure old log is flushed
-            drop(old_log);
+        if let Some(mut old_log) = guard.take() {
+            // Ensure old log is flushed. Unlike std's BufWriter, tokio's does not
+            // write its buffer out when dropped: records still buffered (Sync mode
+            // between commits, Batch mode between syncs) would be lost.
+            old_log.writer.flush().await?;
         }
         *guard = Some(new_log);
 
